@@ -1487,6 +1487,17 @@ def large_volume(kind, hint, rng):
     return vol, cs
 
 
+def large_last_program(rng, pid, kind, hint):
+    """the session ends right after the very last cluster of the volume was handed out (hint at the last cluster: one cluster written;
+    just before it: two): the hint stored at unmount must have wrapped into the volume"""
+    vol, cs = large_volume(kind, hint, rng)
+    n = 1 if hint == "last" else 2
+    ops = [{"op": "stats"}, {"op": "create_file", "at": "", "path": "tail end.dat", "as": "a"}, {"op": "write_all", "h": "a", "pat": 5, "len": n * cs},
+           {"op": "extents", "h": "a"}, {"op": "close", "h": "a"}, {"op": rng.choice(["unmount", "dropfs"])}, {"op": "stats"},
+           {"op": "open_file", "at": "", "path": "tail end.dat", "as": "b"}, {"op": "read_all", "h": "b", "len": 2 * cs}, {"op": "close", "h": "b"}, {"op": "unmount"}]
+    return {"id": pid, "cfg": {"vol": vol, "cell": cs // 2}, "ops": ops, "origin": "large-last:%s:%s" % (kind, hint)}
+
+
 def large_program(rng, pid, kind, hint):
     vol, cs = large_volume(kind, hint, rng)
     cfg = {"vol": vol, "cell": cs // 2}
@@ -1730,6 +1741,99 @@ def dir_cases(rng, quick=True):
 
 # ------------------------------------------------------------------------------------------------
 # multi-session families
+
+def dirty_fault_program(rng, pid, cfg, cs):
+    """the first change of a session hits a transient storage error on one of its first device calls (the write of the status byte is
+    among them), the program goes on: every later structural change must still be bracketed by the dirty bit"""
+    ops = [{"op": "create_file", "at": "", "path": "a.bin", "as": "p"}, {"op": "write_all", "h": "p", "pat": 1, "len": cs + 5}, {"op": "close", "h": "p"},
+           {"op": "create_dir", "at": "", "path": "d"}, {"op": "unmount"}]
+    first = rng.choice(["write", "create", "mkdir", "remove", "rename"])
+    at = len(ops)
+    if first == "write":
+        ops += [{"op": "open_file", "at": "", "path": "a.bin", "as": "h"}, {"op": "seek", "h": "h", "from": "end", "off": 0}]
+        at = len(ops)
+        ops += [{"op": "write_all", "h": "h", "pat": 2, "len": cs}, {"op": "write_all", "h": "h", "pat": 3, "len": cs}, {"op": "close", "h": "h"}]
+    elif first == "create":
+        ops += [{"op": "create_file", "at": "", "path": "new one.txt"}, {"op": "create_file", "at": "", "path": "new one.txt"}]
+    elif first == "mkdir":
+        ops += [{"op": "create_dir", "at": "", "path": "d/sub"}, {"op": "create_dir", "at": "", "path": "d/sub"}]
+    elif first == "remove":
+        ops += [{"op": "remove", "at": "", "path": "a.bin"}, {"op": "remove", "at": "", "path": "a.bin"}]
+    else:
+        ops += [{"op": "rename", "at": "", "src": "a.bin", "to": "", "dst": "d/moved.bin"}, {"op": "rename", "at": "", "src": "a.bin", "to": "", "dst": "d/moved.bin"}]
+    ops += [{"op": "create_file", "at": "", "path": "later.txt", "as": "q"}, {"op": "write_all", "h": "q", "pat": 4, "len": 2 * cs}, {"op": "close", "h": "q"},
+            {"op": "create_dir", "at": "", "path": "later dir"}, {"op": rng.choice(["abandon", "unmount", "dropfs"])}, {"op": "list", "at": "", "path": ""}, {"op": "unmount"}]
+    return {"id": pid, "cfg": cfg, "ops": ops, "fault": {"at": at, "k": rng.randrange(1, 9), "continue": True}, "origin": "dirty-fault"}
+
+
+def crash_reuse_program(rng, pid, cfg, cs):
+    """a file is emptied (or shortened) and left that way; after a remount another file takes the space and is flushed; then the first
+    file is written again: the flushed file was not touched and must survive every later power cut unchanged (C14)"""
+    cfg = dict(cfg, wlog=True)
+    k = rng.choice([1, 2, 3])
+    ops = [{"op": "create_file", "at": "", "path": "victim.bin", "as": "a"}, {"op": "write_all", "h": "a", "pat": 5, "len": k * cs + rng.choice([0, 7])},
+           {"op": "flush", "h": "a"}, {"op": "seek", "h": "a", "from": "start", "off": rng.choice([0, 0, 0, cs])}, {"op": "truncate", "h": "a"}, {"op": "close", "h": "a"},
+           {"op": rng.choice(["unmount", "dropfs"])},
+           {"op": "create_file", "at": "", "path": "keep.txt", "as": "b"}, {"op": "write_all", "h": "b", "pat": 6, "len": (k + 1) * cs - 3},
+           {"op": rng.choice(["flush", "close"]), "h": "b"},
+           {"op": "open_file", "at": "", "path": "victim.bin", "as": "a2"}, {"op": "seek", "h": "a2", "from": "end", "off": 0},
+           {"op": "write_all", "h": "a2", "pat": 7, "len": rng.choice([10, cs, 2 * cs])}, {"op": "close", "h": "a2"},
+           {"op": "create_dir", "at": "", "path": "after"}, {"op": "unmount"}]
+    return {"id": pid, "cfg": cfg, "ops": ops, "crash": {"stride": 1}, "origin": "crash:reuse"}
+
+
+def gap_program(rng, pid, cfg):
+    """names of many lengths are created next to each other, some are removed, others (needing as many slots, one more, one less) take
+    the gaps by creation or by renaming: every name that was not touched must still be listed character for character"""
+    ops = [{"op": "create_dir", "at": "", "path": "g", "as": "G"}]
+    live = []
+    n = 0
+
+    def name(slots):
+        # a long name occupying `slots` directory slots (13 units per long-name slot, plus the short entry)
+        nonlocal n
+        n += 1
+        ln = rng.randrange(13 * (slots - 2) + 1, 13 * (slots - 1) + 1) if slots > 1 else 0
+        base = ("n%d-" % n + "".join(rng.choice("abcdefghij klmnop\u00e9\u00fc") for _ in range(40)))[:max(ln, 4)].rstrip(" ") + "x"
+        return base[:ln] if ln >= 4 else "N%d" % n
+
+    for _ in range(rng.randrange(6, 11)):
+        nm = name(rng.choice([1, 2, 2, 3, 3, 4]))
+        ops.append({"op": rng.choice(["create_file", "create_file", "create_dir"]), "at": "G", "path": nm})
+        live.append(nm)
+    for _ in range(rng.randrange(4, 9)):
+        if len(live) > 2:
+            v = live.pop(rng.randrange(len(live) - 1))          # (never the last one: a gap needs a live neighbour behind it)
+            ops.append({"op": "remove", "at": "G", "path": v})
+        nm = name(rng.choice([2, 3, 3, 4, 4, 5]))
+        if live and rng.random() < 0.3:
+            src = live.pop(rng.randrange(len(live)))
+            ops.append({"op": "rename", "at": "G", "src": src, "to": "G", "dst": nm})
+        else:
+            ops.append({"op": "create_file", "at": "G", "path": nm})
+        live.append(nm)
+        ops.append({"op": "list", "at": "G", "path": ""})
+    for nm in live[:4]:
+        ops.append({"op": "open_file", "at": "G", "path": nm.upper()})
+    ops.append({"op": "unmount"})
+    return {"id": pid, "cfg": cfg, "ops": ops, "origin": "names:gaps"}
+
+
+def stamp_fault_program(rng, pid, cfg):
+    """explicit stamps are set, the flush that should store them hits a transient storage error, the flush is repeated (or the handle
+    closed): the stamps must be on the medium afterwards"""
+    def t():
+        return [rng.randrange(1980, 2108), rng.randrange(1, 13), rng.randrange(1, 29), rng.randrange(24), rng.randrange(60), rng.randrange(60), rng.randrange(1000)]
+    ops = [{"op": "clock", "t": [2015, 5, 5, 10, 10, 10, 0]},
+           {"op": "create_file", "at": "", "path": "stamped.dat", "as": "s"}, {"op": "write_all", "h": "s", "pat": 3, "len": 700}, {"op": "close", "h": "s"},
+           {"op": "open_file", "at": "", "path": "stamped.dat", "as": "s"}]
+    for kind in rng.sample(["set_created", "set_modified", "set_accessed"], rng.randrange(1, 4)):
+        ops.append({"op": kind, "h": "s", "t": t()})
+    at = len(ops)
+    ops += [{"op": "flush", "h": "s"}, {"op": rng.choice(["flush", "close"]), "h": "s"}, {"op": "list", "at": "", "path": ""}, {"op": "unmount"},
+            {"op": "list", "at": "", "path": ""}, {"op": "unmount"}]
+    return {"id": pid, "cfg": cfg, "ops": ops, "fault": {"at": at, "k": rng.randrange(1, 5), "continue": True}, "origin": "stamps:fault"}
+
 
 def with_remounts(prog, rng, k=2):
     """insert k session ends (unmount / dropfs) at random positions: handles still open are closed by the executor"""
